@@ -345,6 +345,22 @@ def _loader(repo, rep):
               "a file template's own directory is put first on the search "
               "path of its load: expression", construct="relative-first",
               where=L.where(pf))
+    # ... always: the only condition is the option itself (a directory that
+    # is already somewhere on the path must still come first)
+    ins = [n for n in ast.walk(pf.node) if isinstance(n, ast.Call)
+           and src(n.func).endswith("search_path.insert")]
+    extra = []
+    for c in ins:
+        for test, truth in L.guards_of(c, pf.node):
+            gt = src(test)
+            if gt == "self.prepend_relative_search_path" and truth:
+                continue
+            extra.append(gt)
+    rep.check(len(ins) == 1 and src(ins[0].args[0]) == "0" and not extra,
+              "R16.3", pf.qualname, "the template's directory is inserted at "
+              "position 0 whenever the option is on -- under no further "
+              "condition", construct="relative-first-always",
+              where=L.where(pf), detail="guards: %s" % extra)
     fresh_ok, detail = fresh_search_path(repo)
     rep.check(fresh_ok, "R16.3", pf.qualname,
               "the search path a file template extends with its own "
